@@ -33,10 +33,12 @@ def site_key(calls, i, cfgname):
     return "c10:oracle:%s:%s" % (cfgname, kind)
 
 
-def fault_oracle(emu, sub, k, script, run, has_free):
+def fault_oracle(emu, sub, k, script, run, has_free, failed_kind):
     """Independent oracle on the implementation: (1) a normal return means the
     final tree is complete and valid; (2) whatever the outcome, a complete copy
-    of everything flushed still exists somewhere."""
+    of everything flushed still exists somewhere (except after an abort caused
+    by a failed close(): there the injected fault itself is the loss of the
+    last write and aborting is all the runtime can do)."""
     probs = []
     fin = os.path.join(sub, "s%d" % k)
     tmp = os.path.join(sub, "s%d.tmp" % k)
@@ -70,7 +72,7 @@ def fault_oracle(emu, sub, k, script, run, has_free):
             emu.res.dist("emu:" + v)
             if not v.startswith("ok"):
                 probs.append("returned normally but ovniemu does not accept the final trace: " + v)
-    if must or nmark:
+    if (must or nmark) and not (failed_kind == "close" and run.cls == "die"):
         copies = obs_of(fin) + (obs_of(tmp) if os.path.isdir(tmp) else [])
         if not any(fs_lib.stream_has(c, must, nmark) is None for c in copies):
             probs.append("no complete copy of the flushed stream is left (outcome %s)" % run.outcome)
@@ -167,7 +169,7 @@ def run_config(res, h, drv, emu, d, cfg, scripts, specs=None):
         if what_diff:
             res.cov.setdefault("correspondence_breaks", []).append(
                 {"script": sc[:300], "what": "%s: fault %s on call #%d (%s): %s" % (name, what, idx, call, what_diff)})
-        probs = fault_oracle(emu, sub, k, sc, run, "free" in fs_lib.script_ops(sc))
+        probs = fault_oracle(emu, sub, k, sc, run, "free" in fs_lib.script_ops(sc), ckind if run.nfaults else None)
         if probs:
             found = True
             key = site_key(ref[k].calls, idx, name)
